@@ -1,5 +1,5 @@
 (* Properties/C12.v — no request can crash a node or poison the replicated log. *)
-From Verif Require Import Base.Prelude Store.Spec Store.Partition Codec.Model Codec.Proofs Api.Validate Api.ValidateProofs Store.Translated Generated.Translated Generated.Facts.
+From Verif Require Import Base.Prelude Store.Spec Store.Partition Codec.Model Codec.Proofs Api.Validate Api.ValidateProofs Store.Translated Api.Translated Generated.Translated Generated.Facts.
 Open Scope N_scope.
 
 Definition fb12 (f : fact bool) (dflt : bool) : bool := match f with Known b => b | Unrecognised _ => dflt end.
@@ -66,6 +66,11 @@ Proof. split; [repeat constructor|reflexivity]. Qed.
 
 (* the bounds check every write path applies (index.Metadata.Validate) as TRANSLATED from index/metadata.go on this run
    is the model's meta_fits - the bounds of the snapshot encoding *)
+(* Create's parameter check as TRANSLATED from storage/dataset_manager.go on this run refuses exactly what the model's
+   dataset_ok refuses, for the limits the source has now *)
+Theorem C12_create_check_translated : forall dim space parts repl : N,
+  go_Create_refuses (space <? 3) (Z.of_N dim) (Z.of_N parts) (Z.of_N (l_max_parts limits_now)) (Z.of_N repl) = negb (dataset_ok limits_now dim space parts repl).
+Proof. intros. apply go_Create_refuses_is_model. reflexivity. Qed.
 Theorem C12_validate_translated : forall m, go_Metadata_Validate (lens m) = meta_fits m.
 Proof. exact go_Validate_is_model. Qed.
 
@@ -74,3 +79,4 @@ Print Assumptions C12_every_item_answered.
 Print Assumptions C12_bound_is_codec_bound.
 Print Assumptions C12_dataset_params.
 Print Assumptions C12_validate_translated.
+Print Assumptions C12_create_check_translated.
